@@ -101,6 +101,7 @@ var _ = vl.Less
 func vJSON(c *Map[int, int]) containers.VJSON {
 	return containers.VJSON{C: c, ToJSON: c.ToJSON, FromJSON: c.FromJSON,
 		Marshal: func() ([]byte, error) { return json.Marshal(c) },
+		Unmarshal: func(data []byte) error { return json.Unmarshal(data, c) },
 		Inv:     func() { VInv(c) },
 		Step:    func() { k, x := v.Int("sk"), v.Int("sx"); c.Put(k, x); y, ok := c.Get(k); v.Assert(v.And(ok, y == x), "C12:put-after-load") },
 		Fresh:   func() containers.VJSON { return vJSON(NewWith[int, int](cmp.Compare[int], cmp.Compare[int])) },
